@@ -15,6 +15,7 @@ from typing import Any
 from .. import core
 from ..runner import fp
 from ..threaded import run_serial, run_threaded
+from ..sqlworld import world_ext
 from ..world import World
 
 NAME = "txn"
@@ -100,8 +101,8 @@ def gen(rng: Any, prop: str, tier: str) -> dict[str, Any]:
                 mine_in_txn[sid] = []
                 continue
         if kind in ("end", "end_noop"):
-            if kind == "end" and not open_txn[sid]:
-                kind = "insert"
+            if kind == "end" and not open_txn[sid] and rng.random() < 0.7:
+                kind = "insert"  # (otherwise: a COMMIT / ROLLBACK with nothing to end, possibly while another session's transaction is open)
             else:
                 what = rng.choice(["commit", "commit", "rollback"])
                 if rng.random() < 0.35:
@@ -377,6 +378,33 @@ def expected_final(history: list[dict[str, Any]]) -> dict[str, list[int]]:
     return {t: sorted(v) for t, v in out.items()}
 
 
+def rolled_back_tables(history: list[dict[str, Any]]) -> set[str]:
+    """Names of tables created inside transactions that were then rolled back by an acknowledged ROLLBACK."""
+    gone: set[str] = set()
+    per: dict[str, list[dict[str, Any]]] = {}
+    for h in sorted(history, key=lambda x: x["inv"]):
+        per.setdefault(h["s"], []).append(h)
+    for hs in per.values():
+        pending: list[str] | None = None
+        failed = False
+        for h in hs:
+            op, ok = h["op"], bool(h["out"].get("ok"))
+            if op.get("txn") == "begin" and ok:
+                pending, failed = [], False
+            elif op.get("txn") == "commit":
+                pending = None
+            elif op.get("txn") == "rollback":
+                if ok and pending and not failed:
+                    gone.update(pending)
+                pending = None
+            elif pending is not None:
+                if "ddl" in op and ok:
+                    pending.append(op["ddl"]["table"])
+                if op.get("fail_runtime"):
+                    failed = True  # the engine aborted the transaction: what it discards and when is not constrained here
+    return gone
+
+
 def run(case: dict[str, Any]) -> dict[str, Any]:
     sim = core.begin()
     world = World(sim)
@@ -409,6 +437,14 @@ def run(case: dict[str, Any]) -> dict[str, Any]:
                                    {"table": t, "expected": exp.get(t, []), "observed": got.get(t, [])})
                     break
             probes["table_created_in_txn"] = sum(1 for o in case["ops"] if "ddl" in o)
+            if violation is None:
+                # a rolled-back CREATE TABLE leaves nothing behind - also not in fakesnow's side tables (VARCHAR lengths, comments)
+                gone = rolled_back_tables(history)
+                if gone:
+                    probes["rolled_back_create"] = len(gone)
+                    left = [[k, r] for k, rows in sorted(world_ext(world).items()) for r in rows if len(r) > 2 and str(r[2]) in gone]
+                    if left:
+                        violation = v_("rollback-leaves-trace/side-tables", "a rolled-back CREATE TABLE left rows in fakesnow's metadata side tables", {"tables": sorted(gone), "rows": left[:4]})
         nontrivial = probes.get("foreign_read_during_open_txn", 0) + probes.get("foreign_read_after_commit", 0) > 0
         sched = res["schedule"] if res["schedule"] is not None else [o["s"] for o in case["ops"]]
         out = {
